@@ -359,9 +359,58 @@ def check_cycle(rec, kind, steps_seed):
                  repr(exc)[:300])
 
 
+@st.composite
+def column_specs(draw):
+    """workbooks whose formula cells lie INSIDE whole-column / whole-row
+    references of the same sheet (wbspec keeps those on an input-only sheet),
+    so the fault site is a member of an unbounded range"""
+    num = st.sampled_from([0, 1, 2, 3, -1, 2.5, 10])
+    cells = {f'B{r}': draw(num) for r in (1, 2, 3)}
+    inputs = [f'S!B{r}' for r in (1, 2, 3)]
+    forms = []
+    a_forms = ['=B1+B2', '=B2*2', '=B1-B3', '=SUM(B1:B3)', '=IF(B1>B2,B1,B3)']
+    for r in (1, 2, 3):
+        if draw(st.integers(0, 3)):
+            body = draw(st.sampled_from(a_forms))
+            if r > 1 and f'A{r - 1}' in cells and draw(st.booleans()):
+                body += f'+A{r - 1}'
+            cells[f'A{r}'] = body
+            forms.append(f'S!A{r}')
+        elif draw(st.booleans()):
+            cells[f'A{r}'] = draw(num)
+            inputs.append(f'S!A{r}')
+    if not forms:
+        cells['A2'] = '=B1+B2'
+        forms.append('S!A2')
+        if 'S!A2' in inputs:
+            inputs.remove('S!A2')
+    readers = {
+        'C4': draw(st.sampled_from(['=SUM(A:A)+B1', '=SUM(S!A:A)',
+                                    '=MAX(A:A)-B2', '=COUNT(A:A)'])),
+        'D4': draw(st.sampled_from(['=COUNT(A:B)', '=SUM(A:B)', '=MIN(A:B)'])),
+        'C5': draw(st.sampled_from(['=SUM(1:2)', '=MAX(2:3)', '=SUM(1:1)'])),
+        'D5': '=C4+1',
+        'C6': '=B3*2',
+        'D6': draw(st.sampled_from(['=D4+C5', '=C6+1', '=SUM(A1:A3)'])),
+    }
+    for coord in ('C4', 'D4', 'C5', 'D5', 'C6', 'D6'):
+        if coord in ('C4', 'C6') or draw(st.integers(0, 3)):
+            cells[coord] = readers[coord]
+            forms.append(f'S!{coord}')
+    if 'C4' not in cells:
+        cells.pop('D5', None)
+        forms = [f for f in forms if f != 'S!D5']
+    return dict(sheets={wbspec.INSHEET: {'A1': 1}, 'S': cells}, arrays=[],
+                names={}, active='S', inputs=inputs, formulas=forms,
+                ranges=['S!A:A'])
+
+
 def shards(tier, seed):
     out = [dict(kind='cycle')]
-    for k in range(15):
+    for k in range(2):
+        out.append(dict(kind='columns', seed=seed * 1000 + 100 + k,
+                        n=12 if tier == 'quick' else 250))
+    for k in range(13):
         out.append(dict(kind='hyp', seed=seed * 1000 + k,
                         n=12 if tier == 'quick' else 250))
     return out
@@ -373,8 +422,9 @@ def run_shard(shard, rec):
             check_cycle(rec, kind, 0)
         return
     # fault sites are enumerated per spec: every formula cell x every kind
-    strategy = st.tuples(wbspec.specs(max_formulas=7), st.booleans(),
-                         steps_strategy())
+    strategy = st.tuples(
+        column_specs() if shard['kind'] == 'columns'
+        else wbspec.specs(max_formulas=7), st.booleans(), steps_strategy())
 
     def body(c):
         spec, iterative, steps = c
